@@ -135,6 +135,21 @@ def run(res, tier, seed):
                 mapping[(name, k)] = len(flat_lines); flat_lines.append(l)
             files[name] = own + ([f'.include "l{lv + 1:02d}.s"'] if lv < depth else [])
         cases.append(("\n".join(flat_lines) + "\n", files, mapping))
+    # a diagnostic that involves two places (a function entered by a plain jump: reported at the function, because
+    # of the jump) with the two places in different files, in both directions
+    for k in range(4):
+        fn = ["fn_t:", "    addi a0, a0, 1", "    ret"]
+        mainp = ["main:", "    li a0, 1", "    jal fn_t", "    beqz a0, skip", "    j fn_t", "skip:", "    li a7, 10", "    ecall"]
+        flat = mainp + fn
+        if k % 2 == 0:
+            files = {"base.s": mainp + ['.include "lib_t.s"'], "lib_t.s": fn}
+            mapping = {("base.s", i): i for i in range(len(mainp))}
+            mapping.update({("lib_t.s", i): len(mainp) + i for i in range(len(fn))})
+        else:
+            files = {"base.s": mainp[:4] + ['.include "jmp_t.s"'] + mainp[5:] + fn, "jmp_t.s": [mainp[4]]}
+            mapping = {("base.s", i): (i if i < 4 else i) for i in range(len(flat))}
+            mapping[("jmp_t.s", 0)] = 4
+        cases.append(("\n".join(flat) + "\n", files, mapping))
     inputs = []
     for s, files, mapping in cases:
         order = import_order(files)
@@ -220,7 +235,9 @@ def run(res, tier, seed):
         ("cycle3", [("base.s", body.replace("{INC}", '.include "a.s"')), ("a.s", '    nop\n.include "b.s"\n'),
                     ("b.s", '    nop\n.include "a.s"\n')], "Cyclic dependency", 1),
         ("self-below", [("base.s", body.replace("{INC}", '.include "a.s"')), ("a.s", '    nop\n.include "a.s"\n')],
-         "Cyclic dependency", 1)]
+         "Cyclic dependency", 1),
+        ("missing-badpath", [("base.s", body.replace("{INC}", '.include "http://["'))], "", 2),
+        ("missing-badpath2", [("base.s", body.replace("{INC}", '.include "a b\\\\c:%zz.s"'))], "", 2)]
     lout = run_lines_isolated(RVH_DEBUG, [lsp_req(fl) for _, fl, _, _ in lfaults], chunk=1, timeout=10)
     stats["lsp_reader_cases"] = 0
     for (name, fl, title, line), blk in zip(lfaults, lout):
@@ -230,9 +247,9 @@ def run(res, tier, seed):
         if blk and blk[0].startswith(("HANG", "CRASH", "PANIC")):
             e = f"{blk[0][:60]} with the editor integration's reader on include fault '{name}'"
         else:
-            want = title if name != "missing" else ""
+            want = title if not name.startswith("missing") else ""
             errs = [l for l in runs if field(l, "sev") == "Error" and unhx(field(l, "title")).startswith(want)
-                    and ".s" in (dict(fl).get(unhx(field(l, "file")), "").split("\n") + [""] * 99)[int(field(l, "at").split(":")[0])]]
+                    and ".include" in (dict(fl).get(unhx(field(l, "file")), "").split("\n") + [""] * 99)[int(field(l, "at").split(":")[0])]]
             if len(errs) != 1:
                 e = (f"editor integration's reader, include fault '{name}': expected exactly one "
                      f"{title if want else 'error'!r} on the directive, got {[unhx(field(l, 'title')) for l in runs]}")
